@@ -23,7 +23,7 @@ use crate::util::*;
 pub const PROP: Prop = Prop {
     id: "C03",
     level: "exploration",
-    rule: "(a) every byte string of length <= 2 (quick) / <= 3 (thorough) under 8 representative plus seeded parser option sets; (b) token-alphabet sequences, (c) mutations of printed text, (d) string and character literals in every escape spelling of both syntaxes with code points at every boundary of the scalar-value range (surrogates, 10FFFF, 110000, 2^32-1), truncated and with trailing junk, and arbitrary bytes, each under sampled option sets (all 1536 reachable), three sources, value and datum API, single-shot and iterated with a cap of len+2 calls - all in-process under catch_unwind; (e) pathological shapes in child processes on a 2 MiB stack: n = 10^3..10^6 repetitions of every opener ( [ #( ' ` , ,@ '(a . ' #u8( \" \"\\ #\\ ; and generated mixtures, unterminated and well-formed, plus hundreds of over-deep groups in one iterated stream followed by a shallow probe datum; (f) well-formed nesting of depth 1..100 through every nesting construct and mixtures must be accepted, depth >= 200 must be rejected. non-trivial = the input is not accepted as a single atom; every child case counts; distinct by digest of (input or shape, options, api)",
+    rule: "(a) every byte string of length <= 2 (quick) / <= 3 (thorough) under 8 representative plus seeded parser option sets; (b) token-alphabet sequences, (c) mutations of printed text, (d) string and character literals in every escape spelling of both syntaxes with code points at every boundary of the scalar-value range (surrogates, 10FFFF, 110000, 2^32-1), truncated and with trailing junk, and arbitrary bytes, each under sampled option sets (all 1536 reachable), three sources, value and datum API, single-shot and iterated with a cap of len+2 calls - all in-process under catch_unwind; (e) pathological shapes in child processes on a 2 MiB stack: n = 10^3..10^6 repetitions of every opener ( [ #( ' ` , ,@ '(a . ' #u8( \" \"\\ #\\ ; and generated mixtures, unterminated and well-formed, flat runs of 2*10^5 (10^6) comment lines, whitespace bytes and complete tokens followed by a probe datum, plus hundreds of over-deep groups in one iterated stream followed by a shallow probe datum; (f) well-formed nesting of depth 1..100 through every nesting construct and mixtures must be accepted, depth >= 200 must be rejected. non-trivial = the input is not accepted as a single atom; every child case counts; distinct by digest of (input or shape, options, api)",
     assumptions: &[
         "the documented recursion limit is 128; depths between 101 and 199 are not asserted either way",
         "a child killed by a signal is an abort (violation); a child exceeding the 60 s watchdog is reported as inconclusive, never as a violation",
@@ -510,6 +510,16 @@ fn shapes(tier: Tier, seed: u64) -> Vec<Shape> {
             let unit: Vec<String> = m.iter().map(|s| s.to_string()).collect();
             out.push(Shape { unit: unit.clone(), n, close: true, groups: 1, q, source: (i % 3) as u8, datum: i % 2 == 1, iterated: false, probe: false });
             out.push(Shape { unit, n, close: false, groups: 1, q, source: 2, datum: i % 2 == 0, iterated: true, probe: false });
+        }
+    }
+    // flat repetition: trivia and complete tokens do not nest, so any number of
+    // them in a row has to cost no stack at all (a comment skipper or a
+    // token loop written as a self-call would, outside the depth accounting)
+    for u in [";c\n", " ;\n\t", "\n", " ", "\r\n", "\u{c}", "a ", "\"s\" ", "1.5 ", "#\\a ", "() ", "#u8() ", "#t\n;x\n"] {
+        for datum in [false, true] {
+            i += 1;
+            let n = tier.pick(200_000, 1_000_000);
+            out.push(Shape { unit: vec![u.to_string()], n, close: true, groups: 1, q: if i % 3 == 0 { QOpt::elisp().index() } else { 0 }, source: 2, datum, iterated: true, probe: true });
         }
     }
     // many over-deep groups in one stream, then a probe
